@@ -345,6 +345,7 @@ GEN_FAMILIES = {
     "G1d": ("MC_Gen_G1d.cfg", 500, None),
     "G1e": ("MC_Gen_G1e.cfg", 300, None),
     "G1f": ("MC_Gen_G1f.cfg", None, None),
+    "G1g": ("MC_Gen_G1g.cfg", None, None),
     "G2p_2": ("MC_Gen_G2p_2.cfg", 900, None),
     "G2p_3s": ("MC_Gen_G2p_3s.cfg", 400, 0),
     "G2p_3": ("MC_Gen_G2p_3.cfg", 0, 8000),
